@@ -219,6 +219,14 @@ def run(tier):
     for data, tls in header_requests(rng):
         reqs.append((data, tls, "headers"))
     header_idx = [i for i, r in enumerate(reqs) if r[2] == "headers"]
+    # typed selectors (/<type character>/<selector>, the form url.URLTypeRewriter strips): existing and missing objects
+    typed_sel = ["/0/a.txt", "/1/dir1", "/9/img.gif", "/h/b.html", "/0/dir1/c.txt", "/1/", "/0/nonexistent.txt", "/1/no/such/dir", "/9/dir1/missing.bin",
+                 "/0/0/a.txt", "/x/a.txt", "/0//a.txt", "/1/mail.mbox", "/0/mail.mbox|/MBOX-MESSAGE/1", "/0/mail.mbox|/MBOX-MESSAGE/99", "/7/a.txt", "/0/../a.txt"]
+    for proto in gen.PROTOCOLS:
+        for s in (typed_sel if tier != "quick" or proto in ("gopher", "gopherplus", "http", "gemini") else rng.sample(typed_sel, 5)):
+            data, tls = gen.request_bytes(proto, s, gplus=rng.choice("+!$"))
+            reqs.append((data, tls, "typed"))
+    typed_idx = [i for i, r in enumerate(reqs) if r[2] == "typed"]
     # ---- worlds: every request alone (two handler lists), and after histories ----
     singles = [{"data": gen.lat(d), "tls": t} for d, t, _ in reqs]
     jobs = [{"op": "world", "tree": tree, "config": cfg, "requests": singles} for cfg in (trees.SITE_CONFIG, dict(trees.SITE_CONFIG, **FULL_CONFIG))]
@@ -254,21 +262,33 @@ def run(tier):
         corpus.append(([rng.choice(header_idx) for _ in range(rng.randrange(2, 6))], pi))
     for hi in rng.sample(header_idx, 12):               # and the other way round
         corpus.append(([rng.choice(probes)], hi))
+    # the same under the full handler list (with the selector rewriter): typed selectors, existing and missing, as histories
+    # and as probes of one another and of the plain selectors
+    CFGS = {"default": trees.SITE_CONFIG, "full": dict(trees.SITE_CONFIG, **FULL_CONFIG)}
+    corpus = [(h, tg, "default") for h, tg in corpus]
+    typed_plain = [i for i in typed_idx if not reqs[i][1] and reqs[i][0].endswith(b"\r\n") and not reqs[i][0].startswith((b"GET", b"HEAD", b"gopher.example "))
+                   and b"\t" not in reqs[i][0]]
+    for hi in (typed_idx if tier != "quick" else typed_plain + rng.sample(typed_idx, 12)):
+        for pi in rng.sample(typed_idx, 2) + [rng.choice(typed_plain), rng.choice(probes)]:
+            corpus.append(([hi], pi, "full"))
+    for _ in range(20 if tier == "quick" else 200):
+        corpus.append(([rng.choice(typed_idx) for _ in range(rng.randrange(2, 5))], rng.choice(typed_idx + benign), "full"))
     nhist = len(corpus) + (80 if tier == "quick" else 800)
-    pool = benign + header_idx + probes
+    pool = benign + header_idx + probes + typed_idx
     for n_h in range(nhist):
         k = rng.randrange(1, 7)
         h = [rng.choice(pool) for _ in range(k)]
-        target = rng.choice(probes + header_idx) if rng.random() < 0.3 else rng.randrange(len(reqs))
+        target = rng.choice(probes + header_idx + typed_idx) if rng.random() < 0.3 else rng.randrange(len(reqs))
+        cfgname = rng.choice(["default", "full"])
         if n_h < len(corpus):
-            h, target = corpus[n_h]
-        hist_jobs.append((h, target))
+            h, target, cfgname = corpus[n_h]
+        hist_jobs.append((h, target, cfgname))
     # every history in a process of its own, and the answer to each target from a fresh process with nothing before it:
     # state kept anywhere in the server process (module, class, cache files of the scratch tree) cannot hide in the baseline
-    targets = sorted(set(tg for _, tg in hist_jobs))
-    iso_jobs = [{"op": "world", "tree": tree, "config": trees.SITE_CONFIG, "requests": [singles[i] for i in h] + [singles[tg]]}
-                for h, tg in hist_jobs]
-    iso_jobs += [{"op": "world", "tree": tree, "config": trees.SITE_CONFIG, "requests": [singles[tg]]} for tg in targets]
+    targets = sorted(set((tg, cf) for _, tg, cf in hist_jobs))
+    iso_jobs = [{"op": "world", "tree": tree, "config": CFGS[cf], "requests": [singles[i] for i in h] + [singles[tg]]}
+                for h, tg, cf in hist_jobs]
+    iso_jobs += [{"op": "world", "tree": tree, "config": CFGS[cf], "requests": [singles[tg]]} for tg, cf in targets]
     # long pathological lines: a world of their own (oracle only, never a Coq literal)
     longs = long_run_requests(rng, tier)
     long_jobs = []
@@ -284,7 +304,7 @@ def run(tier):
     for r in iso_res:
         if not r["ok"]:
             raise RuntimeError(r["err"] + "\n" + r.get("tb", ""))
-    fresh = {tg: iso_res[len(hist_jobs) + k]["res"]["results"][0] for k, tg in enumerate(targets)}
+    fresh = {key: iso_res[len(hist_jobs) + k]["res"]["results"][0] for k, key in enumerate(targets)}
     tindex = {"/" + e["path"].encode("latin-1").decode("utf-8", "surrogateescape"): ("dir" if e.get("kind") == "dir" else "file") for e in tree}
     sizes = {"/" + e["path"].encode("latin-1").decode("utf-8", "surrogateescape"): len(e.get("data", "")) for e in tree
              if e.get("kind", "file") == "file"}
@@ -320,7 +340,7 @@ def run(tier):
             why, tagbase = "no reply at all", "empty-reply"
         if why is None and proto is not None:
             try:
-                v = V.validate(proto, ob)
+                v = V.validate(proto, ob, head=data.startswith(b"HEAD "))
                 if ob == b"":
                     # an empty reply is a valid plain-Gopher document only for an empty file
                     first = data.split(b"\r\n")[0].split(b"\n")[0].split(b"\t")[0].strip().decode("utf-8", "surrogateescape")
@@ -390,12 +410,12 @@ def run(tier):
                                "request_head_latin1": gen.lat(data2[:200]), "request_tail_latin1": gen.lat(data2[-80:]), "tls": tls2, "tree": tree},
                               tag=f"superlinear:{key[1]}:{key[0]}")
     # histories
-    for k, (h, target) in enumerate(hist_jobs):
+    for k, (h, target, hcfg) in enumerate(hist_jobs):
         last = iso_res[k]["res"]["results"][-1]
-        alone = fresh[target]
+        alone = fresh[(target, hcfg)]
         a = gen.mask_times(last["out"].encode("latin-1"))
         b = gen.mask_times(alone["out"].encode("latin-1"))
-        chk.count(("hist", tuple(h), target), nontrivial=True)
+        chk.count(("hist", tuple(h), target, hcfg), nontrivial=True)
         if a != b:
             stats["history_diffs"] += 1
             found = True
@@ -408,7 +428,7 @@ def run(tier):
                 htag = "history-dependence:maildir-cache-pollution"
             chk.violation({"what": "the response depends on which read-only requests were served before",
                            "history_latin1": [singles[i]["data"] for i in h], "request_latin1": singles[target]["data"],
-                           "tls": singles[target]["tls"], "alone_head": b[:300].decode("latin-1"),
+                           "tls": singles[target]["tls"], "handlers": hcfg, "alone_head": b[:300].decode("latin-1"),
                            "after_history_head": a[:300].decode("latin-1"), "tree": tree}, tag=htag)
     # ---- I/O faults: every protocol must turn them into ONE well-formed error reply ----
     ftree = [e for e in tree if not e["path"].startswith("odd/")] + [
@@ -444,7 +464,7 @@ def run(tier):
             why = "exception escapes the connection handler: " + o["exc"]
         else:
             try:
-                v = V.validate(proto, ob)
+                v = V.validate(proto, ob, head=gp == "HEAD")
                 info_only = gp == "!"          # an information request does not open the object
                 if ob == b"":
                     why = "no reply at all"
@@ -512,10 +532,51 @@ def run(tier):
     ljobs = [{"op": "c03_live", "tree": ltree, "config": live_cfg, "requests": [lj[i] for i in part]} for part in parts]
     ljobs += [{"op": "requests_socket", "tree": ltree, "config": live_cfg, "requests": [lj[i] for i in part]} for part in parts]
     ljobs += [{"op": "world", "tree": ltree, "config": live_cfg, "requests": lj}]
+    # clients that stop sending at each point where the server reads, and keep the connection open: the server is configured
+    # with a timeout ("any read or write that makes no progress in this number of seconds will time out"); every one of them
+    # must be answered or let go within that time (each read point may take one timeout) plus a margin
+    STALL_TIMEOUT, STALL_LIMIT = 2, 9
+    stalls = [(b"", False, "nothing-sent"), (b"/a.txt", False, "selector-without-line-end"), (b"/a.txt\r", False, "selector-cr"),
+              (b"/a.txt\t", False, "gopher-after-tab"), (b"/a.txt\t+", False, "gopherplus-without-line-end"),
+              (b"GET /a.txt HTTP/1.0", False, "http-request-line"), (b"GET /a.txt HTTP/1.0\r\n", False, "http-no-header-end"),
+              (b"GET /a.txt HTTP/1.0\r\nHost: x\r\nAccept: text/ht", False, "http-inside-header"),
+              (b"GET /wap/a.txt HTTP/1.0\r\nAccept: , text/vnd.wap.wml\r\n", False, "wap-no-header-end"),
+              (b"gopher.example /a.txt 10\r\nabc", False, "spartan-short-body"), (b"gopher.example /a.txt 5\r\n", False, "spartan-no-body"),
+              (b"", True, "tls:nothing-sent"), (b"gemini://gopher.example/a.txt", True, "tls:gemini-without-line-end"),
+              (b"GET /a.txt HTTP/1.0\r\nHost: x\r\n", True, "tls:https-no-header-end"), (b"/a.txt", True, "tls:selector-without-line-end"),
+              (b"\x16", False, "handshake:first-byte"), (b"\x16\x03\x01\x02\x00\x01\x00\x01\xfc\x03\x03", False, "handshake:partial-hello")]
+    if tier == "quick":
+        keep = {"nothing-sent", "selector-without-line-end", "http-no-header-end", "http-inside-header", "spartan-short-body",
+                "tls:gemini-without-line-end", "tls:https-no-header-end", "handshake:first-byte"}
+        stalls = [s for s in stalls if s[2] in keep]
+    half = (len(stalls) + 1) // 2
+    n_stall_jobs = 0
+    for part in (stalls[:half], stalls[half:]):
+        if part:
+            n_stall_jobs += 1
+            ljobs.append({"op": "c03_live", "tree": ltree, "config": live_cfg, "server_timeout": STALL_TIMEOUT, "stall_limit": STALL_LIMIT,
+                          "requests": [{"data": gen.lat(d), "tls": tl, "stall": True} for d, tl, _ in part]})
     lres = impl_run_parallel(ljobs, chunks=len(ljobs))
     for r in lres:
         if not r["ok"]:
             raise RuntimeError(r["err"] + "\n" + r.get("tb", ""))
+    stall_out = [o for r in lres[len(lres) - n_stall_jobs:] for o in r["res"]["results"]]
+    lres = lres[:len(lres) - n_stall_jobs]
+    stats["stalling_clients"] = len(stalls)
+    for (d, tl, point), o in zip(stalls, stall_out):
+        chk.count(("stall", point), nontrivial=True)
+        why = None
+        if o["exc"]:
+            why = "client error: " + o["exc"]
+        elif not o["closed"]:
+            why = ("a client that stops sending (%s) is neither answered nor disconnected: still open %.1f s after its last byte, "
+                   "the configured timeout is %d s" % (point, o["secs"], STALL_TIMEOUT))
+        if why:
+            found = True
+            kind = "handshake" if point.startswith("handshake") else ("tls:" + point[4:] if tl else point)
+            chk.violation({"what": why, "sent_latin1": gen.lat(d), "tls": tl, "stall_point": point, "configured_timeout_s": STALL_TIMEOUT,
+                           "waited_s": o["secs"], "received_latin1": o["out"][:200], "log": o["log"][-3:], "config": live_cfg, "tree": ltree},
+                          tag="no-timeout:" + kind)
     mem = lres[-1]["res"]["results"]
     stats["live_requests"] = len(lreqs)
     stats["transport_diffs"] = 0
